@@ -22,7 +22,7 @@ vars == <<sc>>
 Z == "0"
 OpRec(op, id, mode, m, who, val, val2, amt, grantee, to, value, body) ==
     [op |-> op, id |-> id, mode |-> mode, m |-> m, who |-> who, val |-> val, val2 |-> val2, amt |-> amt,
-     grantee |-> grantee, to |-> to, value |-> value, height |-> 1, body |-> body]
+     grantee |-> grantee, to |-> to, value |-> value, height |-> 1, body |-> body, alt |-> <<>>]
 Pc(id, mode, m, who, amt)       == OpRec("pc", id, mode, m, who, 0, 1, amt, "C0", "W", Z, <<>>)
 PcG(id, mode, m, grantee, amt)  == OpRec("pc", id, mode, m, "S", 0, 1, amt, grantee, "W", Z, <<>>)
 CallC(id, mode, value, body)    == OpRec("call", id, mode, "-", "-", 0, 0, Z, "-", "-", value, body)
@@ -30,6 +30,11 @@ Send(id, to, value)             == OpRec("call", id, "catch", "-", "-", 0, 0, Z,
 Store(id)                       == OpRec("sstore", id, "catch", "-", "-", 0, 0, Z, "-", "-", Z, <<>>)
 Rev(id)                         == OpRec("revert", id, "catch", "-", "-", 0, 0, Z, "-", "-", Z, <<>>)
 Inval(id)                       == OpRec("invalid", id, "catch", "-", "-", 0, 0, Z, "-", "-", Z, <<>>)
+CallCA(id, mode, value, body, alt) == [CallC(id, mode, value, body) EXCEPT !.alt = alt]
+Recall(id, mode, to, value)     == OpRec("recall", id, mode, "-", "-", 0, 0, Z, "-", to, value, <<>>)
+SelfD(id, to)                   == OpRec("selfdestruct", id, "catch", "-", "-", 0, 0, Z, "-", to, Z, <<>>)
+Create(id, value, body)         == OpRec("create", id, "catch", "-", "-", 0, 0, Z, "-", "-", value, body)
+Query(id)                       == Pc(id, "catch", "query", "S", Z)
 
 Amt == "1000000"
 Methods == {"delegate", "undelegate", "redelegate", "cancelUnbonding", "withdrawRewards", "claimRewards",
@@ -47,7 +52,9 @@ GrantsFor(m, c) == IF TypeOf(m) = "-" THEN NoGrant ELSE <<[Grant(TypeOf(m), "", 
 
 Setup(signer, wdS, grants, value) ==
     [signer |-> signer, wd |-> [S |-> wdS], grants |-> grants, delegS |-> "1000000000000000000000",
-     delegT |-> "1000000000000000000000", ubdS |-> "5000000", fundC |-> "5000000000000000000", warm |-> 3]
+     delegT |-> "1000000000000000000000", ubdS |-> "5000000", fundC |-> "5000000000000000000", warm |-> 3,
+     delegC |-> "0", denom2 |-> FALSE]
+SetupC(wdS, grants, d2) == [Setup("a1", wdS, grants, Z) EXCEPT !.delegC = "700000000000000000000", !.denom2 = d2]
 
 \* ----- C02: no frame reverts on purpose ------------------------------------------------
 C02Direct == {[setup |-> Setup(IF m = "withdrawCommission" THEN "v1" ELSE "a1", w, NoGrant, Z), top |-> Pc(0, "catch", m, who, Amt)] :
@@ -67,6 +74,31 @@ C02Nested ==
       top |-> CallC(0, "catch", v0, <<CallC(1, "bubble", v1, <<Pc(2, "bubble", m, who, Amt), Store(3)>>), Store(4)>>)] :
          m \in {"delegate", "undelegate", "withdrawRewards", "setWithdrawAddress"}, who \in {"S", "self"}, w \in {"self", "W"},
          v0 \in {Z, "500"}, v1 \in {Z, "100"}}
+
+\* a contract that receives value, calls a precompile and forwards exactly what it received
+C02Forward ==
+    UNION {{[setup |-> Setup("a1", w, GrantsFor(m, "C0"), Z),
+             top |-> CallC(0, "catch", "900", <<Pc(1, "catch", m, "S", Amt), Send(2, tgt, "900")>>)] :
+               w \in {"self", "W"}, tgt \in {"T", "S"}} : m \in {"delegate", "withdrawRewards", "claimRewards", "setWithdrawAddress", "query"}}
+\* value-bearing nested calls that revert, with nothing else happening to the contracts afterwards
+C02Plain ==
+    {[setup |-> Setup("a1", "self", NoGrant, Z), top |-> t] : t \in {
+        CallC(0, "catch", "1000", <<CallC(1, "catch", "400", <<Rev(2)>>)>>),
+        CallC(0, "catch", "1000", <<CallC(1, "catch", "400", <<Send(3, "T", "100"), Rev(2)>>), Send(4, "T", "50")>>),
+        CallC(0, "catch", "1000", <<CallC(1, "catch", "400", <<Store(2)>>), Send(4, "W", "50")>>),
+        CallC(0, "catch", Z, <<CallC(1, "catch", "400", <<CallC(2, "catch", "300", <<Inval(3)>>)>>)>>),
+        Create(0, "600", <<Store(1), Send(2, "T", "100")>>),
+        Create(0, Z, <<CallC(1, "catch", "300", <<Store(2)>>)>>),
+        \* SELFDESTRUCT: to a third party, and the sanctioned burn (to itself)
+        CallC(0, "catch", "900", <<CallC(1, "catch", "500", <<Store(2), SelfD(3, "T")>>), Store(4)>>),
+        CallC(0, "catch", "900", <<CallC(1, "catch", "500", <<Store(2), SelfD(3, "self")>>), Store(4)>>) }}
+\* the calling contract owns a delegation itself (named = caller), rewards also in a second denomination
+C02Own ==
+    UNION {{[setup |-> SetupC(w, GrantsFor(m, "C0"), d2), top |-> CallC(0, "catch", v, <<Pc(1, "catch", m, "self", Amt), Store(2)>>)] :
+              w \in {"self"}, v \in {Z, "777"}, d2 \in BOOLEAN} : m \in {"delegate", "undelegate", "redelegate", "withdrawRewards", "claimRewards"}}
+C02Create ==
+    UNION {{[setup |-> Setup("a1", w, NoGrant, Z), top |-> Create(0, v, <<Pc(1, "catch", m, "S", Amt), Store(2)>>)] :
+              w \in {"self", "W"}, v \in {Z, "600"}} : m \in {"delegate", "withdrawRewards", "setWithdrawAddress", "query"}}
 
 \* ----- C05: exactly one frame reverts ---------------------------------------------------
 RevMethods == {"delegate", "undelegate", "withdrawRewards", "claimRewards", "setWithdrawAddress", "approve", "redelegate"}
@@ -92,7 +124,27 @@ C05Failed ==
     \cup {[setup |-> Setup("a1", w, <<Grant(TypeOf(m), "", FALSE, 2)>>, Z),
            top |-> CallC(0, "catch", v, <<Pc(1, "catch", m, "S", Amt), Store(2)>>)] :
              m \in {"delegate", "undelegate", "redelegate", "cancelUnbonding"}, w \in {"self", "W"}, v \in {Z, "777"}}
-C05All == C05Failed \cup UNION {{[setup |-> Setup("a1", w, GrantsFor(m, x.c), Z), top |-> x.t] : w \in {"self", "W"}, x \in C05Trees(m)} : m \in RevMethods}
+\* (vii) re-entrancy: the reverted frame runs in a contract that is also dirty outside of it
+C05Reentrant(m) ==
+    { \* A writes, calls B; B re-enters A (alt), which calls the precompile; B then reverts
+      [c |-> "C0", t |-> CallCA(0, "catch", Z, <<Store(1), CallC(2, "catch", Z, <<Recall(3, "bubble", "C0", Z), Rev(4)>>), Store(5)>>,
+                                              <<Store(6), PcM(7, "catch", m)>>)],
+      \* A writes, re-enters itself: the inner activation writes, calls the precompile and reverts
+      [c |-> "C0", t |-> CallCA(0, "catch", Z, <<Store(1), Recall(2, "catch", "C0", Z), Store(5)>>,
+                                              <<Store(6), PcM(7, "catch", m), Rev(8)>>)] }
+C05Destroy ==
+    {[setup |-> Setup("a1", "self", NoGrant, Z), top |-> t] : t \in {
+        \* SELFDESTRUCT inside a frame that is reverted: the contract must survive with code, storage and balance
+        CallCA(0, "catch", "900", <<Store(1), CallC(2, "catch", Z, <<Recall(3, "bubble", "C0", Z), Rev(4)>>), Store(5)>>, <<SelfD(6, "T")>>),
+        CallC(0, "catch", "900", <<CallC(1, "catch", "500", <<Store(2), SelfD(3, "T")>>), Rev(4)>>),
+        CallC(0, "catch", "900", <<CallC(1, "catch", "500", <<CallC(2, "catch", "100", <<SelfD(3, "self")>>), Rev(4)>>), Store(5)>>) }}
+\* (viii) a contract creation whose constructor called a precompile fails
+C05Create(m) == {[c |-> "N0", t |-> Create(0, Z, <<Store(1), PcM(2, "catch", m), Rev(3)>>)],
+                 [c |-> "N0", t |-> Create(0, "600", <<PcM(2, "catch", m), Inval(3)>>)]}
+C05All == C05Failed \cup C05Destroy \cup C02Plain
+          \cup UNION {{[setup |-> Setup("a1", w, GrantsFor(m, x.c), Z), top |-> x.t] : w \in {"self", "W"}, x \in C05Reentrant(m) \cup C05Create(m)} :
+                       m \in {"delegate", "setWithdrawAddress", "withdrawRewards", "approve", "query"}}
+          \cup UNION {{[setup |-> Setup("a1", w, GrantsFor(m, x.c), Z), top |-> x.t] : w \in {"self", "W"}, x \in C05Trees(m)} : m \in RevMethods}
 
 \* ----- C04: identities, grant states, allowance arithmetic --------------------------------
 C04Matrix == UNION {
@@ -109,7 +161,7 @@ C04Sequences ==
       top |-> CallC(0, "catch", Z, <<AllowOp(1, a), AllowOp(2, b), AllowOp(3, c), Store(4)>>)] :
          a \in AllowOps, b \in AllowOps, c \in AllowOps, g \in {NoGrant, <<Grant("delegate", "2000000", FALSE, 0)>>}}
 
-Scenarios == CASE Family = "C02" -> C02Direct \cup C02ViaContract \cup C02Dirty \cup C02Nested
+Scenarios == CASE Family = "C02" -> C02Direct \cup C02ViaContract \cup C02Dirty \cup C02Nested \cup C02Forward \cup C02Plain \cup C02Own \cup C02Create
                [] Family = "C05" -> C05All
                [] Family = "C04" -> C04Matrix \cup C04Sequences
                [] Family = "C04small" -> C04Matrix
@@ -117,18 +169,19 @@ Scenarios == CASE Family = "C02" -> C02Direct \cup C02ViaContract \cup C02Dirty 
 ---------------------------------------------------------------------------
 (* abstract pre-state of a scenario, for the model-level check *)
 RECURSIVE Contracts(_)
-ContractsOp(o) == IF o.op = "call" /\ o.body # <<>> THEN {ContractOf(o)} \cup Contracts(o.body) ELSE {}
+ContractsOp(o) == IF HasBody(o) THEN {ContractOf(o)} \cup Contracts(o.body) \cup Contracts(o.alt) ELSE {}
 Contracts(body) == IF body = <<>> THEN {} ELSE ContractsOp(body[1]) \cup Contracts(Tail(body))
 RECURSIVE Slots(_, _)
-SlotsOp(self, o) == (IF o.op \in {"pc", "call", "sstore"} THEN {<<self, "s" \o ToString(o.id)>>} ELSE {})
-                    \cup (IF o.op = "call" /\ o.body # <<>> THEN Slots(ContractOf(o), o.body) ELSE {})
+SlotsOp(self, o) == (IF o.op \in {"pc", "call", "recall", "sstore"} THEN {<<self, "s" \o ToString(o.id)>>} ELSE {})
+                    \cup (IF HasBody(o) THEN Slots(ContractOf(o), o.body) \cup Slots(ContractOf(o), o.alt) ELSE {})
 Slots(self, body) == IF body = <<>> THEN {} ELSE SlotsOp(self, body[1]) \cup Slots(self, Tail(body))
 
 AbstractPre(x) ==
     LET cs == ContractsOp(x.top)
         as == {"S", "T", "W"} \cup cs
         vs == {"V1", "V2", "V3"}
-        sl == IF x.top.op = "call" THEN Slots("S", <<x.top>>) ELSE {}
+        sl == IF HasBody(x.top) THEN Slots("S", <<x.top>>) ELSE {}
+        own(a, v) == a = "C0" /\ v = "V1" /\ x.setup.delegC # "0"
         gr(g, e, t) == LET hit == {i \in 1..Len(x.setup.grants) : g = "S" /\ x.setup.grants[i].grantee = e /\ x.setup.grants[i].type = t} IN
                        IF hit = {} THEN "none" ELSE LET h == x.setup.grants[CHOOSE i \in hit : TRUE] IN
                        IF h.expired THEN "expired" ELSE IF h.limit = "" THEN "unl" ELSE h.limit
@@ -137,16 +190,17 @@ AbstractPre(x) ==
     IN [ bank |-> [a \in as |-> IF a \in cs THEN "5000000000" ELSE "900000000000"],
          mods |-> [m \in {"bonded", "notbonded", "distr", "feecollector", "evm"} |-> "70000000000"],
          supply |-> "100000000000000",
-         deleg |-> [a \in as |-> [v \in vs |-> IF a \in {"S", "T"} /\ v = "V1" THEN "50000000" ELSE Z]],
+         deleg |-> [a \in as |-> [v \in vs |-> IF (a \in {"S", "T"} /\ v = "V1") \/ own(a, v) THEN "50000000" ELSE Z]],
          ubd |-> [a \in as |-> [v \in vs |-> IF a = "S" /\ v = "V1" THEN "5000000" ELSE Z]],
-         rewards |-> [a \in as |-> [v \in vs |-> IF a \in {"S", "T"} /\ v = "V1" THEN "7777" ELSE Z]],
+         rewards |-> [a \in as |-> [v \in vs |-> IF (a \in {"S", "T"} /\ v = "V1") \/ own(a, v) THEN "7777" ELSE Z]],
          wd |-> [a \in as |-> IF a = "S" /\ x.setup.wd["S"] = "W" THEN "W" ELSE a],
          grants |-> [g \in as |-> [e \in as \ {g} |-> [t \in StakeTypes |-> gr(g, e, t)]]],
          grantVals |-> [g \in as |-> [e \in as \ {g} |-> [t \in StakeTypes |-> gv(g, e, t)]]],
          grantExp |-> [g \in as |-> [e \in as \ {g} |-> [t \in StakeTypes |-> "-"]]],
          storage |-> IF cs = {} THEN [c \in {"_"} |-> [k \in {"_"} |-> 0]]
                      ELSE [c \in cs |-> [k \in {p[2] : p \in {q \in sl : q[1] = c}} |-> 0]],
-         nonce |-> [a \in as |-> "3"],
+         nonce |-> [a \in as |-> IF a \in cs THEN (IF a = "N0" THEN "0" ELSE "1") ELSE "3"],
+         code |-> [a \in as |-> IF a \in cs /\ a # "N0" THEN "yes" ELSE "no"],
          commission |-> [v \in vs |-> "555"] ]
 
 ModelRun(x) ==
@@ -154,8 +208,7 @@ ModelRun(x) ==
         e0 == [top |-> x.top, pre |-> pre, operOf |-> IF x.setup.signer = "v1" THEN [S |-> "V1"] ELSE [none |-> "-"],
                res |-> [code |-> 0, failed |-> FALSE, fee |-> "10", feeMax |-> "20"], scn |-> 0]
         g == "S"
-        s0 == [pre EXCEPT !.bank = Sub(@, g, "20"), !.mods = Add(@, "feecollector", "20"), !.nonce[g] = BigAdd(@, "1")]
-        r == MOp([s |-> s0, cache |-> [a \in Accts(s0) |-> "-"], dirty |-> {}, fst |-> s0.storage, nflush |-> 0], g, x.top, g, e0.operOf)
+        r == MOp(MStart(pre, "20"), g, x.top, g, e0.operOf, x.top)
         post == MTx(e0)
         e == [e0 EXCEPT !.res.failed = ~r.ok] @@ [post |-> post]
     IN e
